@@ -10,6 +10,26 @@ Theorem C20_pad_shard_shape : forall d mdb x, 1 <= d -> 1 <= length x ->
 Proof. exact pad_shard_shape. Qed.
 Print Assumptions C20_pad_shard_shape.
 
+(* shard, stack_forest and onehot are the stated reshapes *)
+Theorem C20_shard : forall d n x, 1 <= d -> 1 <= n -> length x = d * n ->
+  length (shard d x) = d /\ Forall (fun row => length row = n) (shard d x) /\ concat (shard d x) = x.
+Proof. exact shard_shape. Qed.
+Print Assumptions C20_shard.
+Theorem C20_stack_forest : forall m forest j i, j < m -> i < length forest ->
+  nth i (nth j (stack_forest m forest) []) 0%Z = nth j (nth i forest []) 0%Z.
+Proof. exact stack_forest_entry. Qed.
+Print Assumptions C20_stack_forest.
+Theorem C20_onehot_entry : forall labels k on off i j, i < length labels -> j < k ->
+  nth j (nth i (onehot labels k on off) []) off = if (Z.of_nat j =? nth i labels 0%Z)%Z then on else off.
+Proof. exact onehot_entry. Qed.
+Print Assumptions C20_onehot_entry.
+(* for every label value and every number of classes: a label in range lights exactly one position, any other none *)
+Theorem C20_onehot_exactly_one : forall labels k on off i, on <> off -> i < length labels ->
+  count_occ Z.eq_dec (nth i (onehot labels k on off) []) on =
+  if ((0 <=? nth i labels 0%Z) && (nth i labels 0%Z <? Z.of_nat k))%Z then 1 else 0.
+Proof. exact onehot_exactly_one. Qed.
+Print Assumptions C20_onehot_exactly_one.
+
 (* scan_in_dim moves the scanned axes to the front with a permutation and back with its inverse *)
 Theorem C20_invert_perm : forall perm i, NoDup perm -> (forall j, In j perm -> j < length perm) -> i < length perm ->
   nth (nth i perm 0) (invert_perm perm) 0 = i.
@@ -40,3 +60,6 @@ Example C20_example :
   p_obs (prun 1 true [LNext; LPut; LGet; LWake; LNext; LPut; LNext; LGet; LWake; LNext; LFail; LGet; LGet] (pinit [7; 8]%N))
   = [Item 7; Item 8; Err; Err]%N.
 Proof. vm_compute. reflexivity. Qed.
+Example C20_onehot_example : onehot [1; 0; 255; 7]%Z 3 1%Z 0%Z = [[0; 1; 0]; [1; 0; 0]; [0; 0; 0]; [0; 0; 0]]%Z /\
+  shard 2 [1; 2; 3; 4; 5; 6]%Z = [[1; 2; 3]; [4; 5; 6]]%Z /\ stack_forest 2 [[1; 2]; [3; 4]; [5; 6]]%Z = [[1; 3; 5]; [2; 4; 6]]%Z.
+Proof. vm_compute. repeat split; reflexivity. Qed.
